@@ -171,6 +171,17 @@ def handleSpz (op : String) (args : List String) : Option String :=
       -- Header.Validate alone, on the boundaries of every guard
       let h : Spz.Header := ⟨← magic.toNat?, ← ver.toNat?, ← np.toNat?, ← deg.toNat?, 0, 0, 0⟩
       pure (if h.valid then "ok" else "err")
+  | "c15.holds.spz_validate", [magic, ver, np, deg, impl] => do
+      -- the implementation's Validate verdict on a boundary header is the model's (= the regenerated guards', by
+      -- spz_validate_matches_source): exactly 10 000 000 points are accepted
+      let h : Spz.Header := ⟨← magic.toNat?, ← ver.toNat?, ← np.toNat?, ← deg.toNat?, 0, 0, 0⟩
+      pure (boolStr ((if h.valid then "ok" else "err") == impl))
+  | "c15.holds.spz_errkind", [hex, impl] => do
+      let bs ← hexBytes? hex
+      pure (boolStr ((match Spz.readRaw bs with
+        | .ok _ => "ok"
+        | .error .short => "short"
+        | .error .invalid => "invalid") == impl))
   | "c15.spz.errkind", [hex] => do
       -- the KIND of rejection of a stream (header-only streams: short read vs invalid header)
       let bs ← hexBytes? hex
